@@ -48,6 +48,24 @@ fn run<'i>(e: &E, s: S<'i>) -> ParseResult<S<'i>> {
 #[derive(Clone, Debug, PartialEq)]
 struct M { pos: usize, toks: Vec<(bool, Rule, usize)>, stack: Vec<String>, la: u8 /*0 none 1 pos 2 neg*/, atomic: bool }
 fn emitting(m: &M) -> bool { m.la == 0 && !m.atomic }
+/// C08: the failure record - furthest position with a reportable attempt, rules that failed there, rules that matched there under negation
+#[derive(Clone, Debug, Default, PartialEq)]
+struct Att { pos: usize, positives: Vec<Rule>, negatives: Vec<Rule> }
+impl Att {
+    fn at(&self, p: usize) -> usize { if self.pos == p { self.positives.len() + self.negatives.len() } else { 0 } }
+    /// a rule tried at `p` is reported: it replaces what was tried inside it at the same position (the lists are cut back to
+    /// their lengths at its entry) unless exactly one rule was tried inside it there; a further position restarts the lists
+    fn report(&mut self, rule: Rule, p: usize, pi: usize, ni: usize, prev: usize, atomic: bool, negative: bool) {
+        if atomic { return; }
+        let curr = self.at(p);
+        if curr > prev && curr - prev == 1 { return; }
+        if p > self.pos { self.positives.clear(); self.negatives.clear(); self.pos = p; }
+        else if p == self.pos { self.positives.truncate(pi); self.negatives.truncate(ni); }
+        else { return; }
+        if negative { self.negatives.push(rule) } else { self.positives.push(rule) }
+    }
+}
+thread_local! { static ATT: std::cell::RefCell<Att> = std::cell::RefCell::new(Att::default()); }
 fn refi(e: &E, input: &str, mut m: M) -> Result<M, M> {
     match e {
         E::Str(t) => if input[m.pos..].starts_with(t) { m.pos += t.len(); Ok(m) } else { Err(m) },
@@ -66,8 +84,13 @@ fn refi(e: &E, input: &str, mut m: M) -> Result<M, M> {
         E::RuleC(k, a) => refi(&E::Compound(Box::new(E::Rule(*k, a.clone()))), input, m),
         E::Rule(k, a) => {
             let start = m.pos; let idx = m.toks.len(); let emit = emitting(&m);
+            let (pi, ni, prev) = ATT.with(|t| { let t = t.borrow(); if t.pos == start { (t.positives.len(), t.negatives.len(), t.positives.len() + t.negatives.len()) } else { (0, 0, 0) } });
+            let (atomic, negative) = (m.atomic, m.la == 2);
             if emit { m.toks.push((true, RULES[*k], start)); }
-            match refi(a, input, m) {
+            let r = refi(a, input, m);
+            // reportable: a failure outside negative look-ahead, or a match under it
+            if r.is_err() != negative { ATT.with(|t| t.borrow_mut().report(RULES[*k], start, pi, ni, prev, atomic, negative)); }
+            match r {
                 Ok(mut n) => { if emit { n.toks.push((false, RULES[*k], n.pos)); } Ok(n) }
                 Err(mut n) => { if emit { n.toks.truncate(idx); } Err(n) }
             }
@@ -116,14 +139,22 @@ fn check(e: &E, input: &str, mode: &str) -> Result<(), String> {
     pest::set_error_detail(false);
     let got = real(e, input)?;
     let init = M { pos: 0, toks: vec![], stack: vec![], la: 0, atomic: false };
+    ATT.with(|t| *t.borrow_mut() = Att::default());
     let want = refi(e, input, init);
+    let att = ATT.with(|t| t.borrow().clone());
     match (&got, &want) {
         (Out::Ok(t, p), Ok(m)) => {
             wellformed(t, input)?;
             if *t != m.toks { return Err(format!("tokens {:?}, direct reading gives {:?}", t, m.toks)); }
             if *p != m.pos { return Err(format!("ends at {}, direct reading gives {}", p, m.pos)); }
         }
-        (Out::Err(..), Err(_)) => {}
+        (Out::Err(p, pos, neg), Err(_)) => {
+            // C08: furthest reportable position; sorted, duplicate-free lists of what failed / matched under negation there
+            let norm = |v: &Vec<Rule>| { let mut w = v.clone(); w.sort(); w.dedup(); w };
+            if *p != att.pos || *pos != norm(&att.positives) || *neg != norm(&att.negatives) {
+                return Err(format!("failure report: position {} expected {:?} unexpected {:?}; direct reading gives position {} expected {:?} unexpected {:?}", p, pos, neg, att.pos, norm(&att.positives), norm(&att.negatives)));
+            }
+        }
         (g, w) => return Err(format!("outcome {:?}, direct reading gives {}", g, if w.is_ok() { "success" } else { "failure" })),
     }
     if mode == "C15" || mode == "all" {
@@ -178,6 +209,37 @@ fn of_size(n: usize, by: &[Vec<E>]) -> Vec<E> {
         out.push(E::Seq(Box::new(a.clone()), Box::new(b.clone()))); out.push(E::Alt(Box::new(a.clone()), Box::new(b.clone()))); } } }
     out
 }
+// ---- second stage for C08 / C15: a narrower vocabulary (two literals, ANY, two rules, negation, option, sequence, choice) up to 9 nodes
+fn deep_leaves() -> Vec<E> { vec![E::Str("a"), E::Str("b"), E::Skip(1), E::Str("")] }
+fn deep_unary(k: usize, a: E) -> E { let b = Box::new(a); match k { 0 => E::Rule(0, b), 1 => E::Rule(1, b), 2 => E::Neg(b), _ => E::Opt(b) } }
+const DNUN: usize = 4;
+fn deep_of_size(n: usize, by: &[Vec<E>]) -> Vec<E> {
+    if n == 1 { return deep_leaves(); }
+    let mut out = vec![];
+    for a in &by[n - 1] { for k in 0..DNUN { out.push(deep_unary(k, a.clone())); } }
+    for i in 1..n - 1 { let j = n - 1 - i; for a in &by[i] { for b in &by[j] {
+        out.push(E::Seq(Box::new(a.clone()), Box::new(b.clone()))); out.push(E::Alt(Box::new(a.clone()), Box::new(b.clone()))); } } }
+    out
+}
+const DEEP_TABLE: usize = 7;   // sizes 1..=7 are tabulated; 8 and 9 are generated on the fly
+const DEEP_INPUTS: [&str; 7] = ["", "a", "c", "ab", "ca", "cb", "acb"];
+/// visits the deep programs in a fixed order (index = position in that order); stops when `f` returns true
+fn deep_visit(by: &[Vec<E>], f: &mut dyn FnMut(usize, &E) -> bool) {
+    let mut i = 0usize;
+    for n in 1..=DEEP_TABLE { for e in &by[n] { if f(i, e) { return; } i += 1; } }
+    for n in [8usize, 9] {
+        // unary over size n-1 (size 8: tabulated size 7; size 9: unary over the on-the-fly size 8 is skipped - only binary splits of tabulated sizes)
+        if n - 1 <= DEEP_TABLE { for a in &by[n - 1] { for k in 0..DNUN { let e = deep_unary(k, a.clone()); if f(i, &e) { return; } i += 1; } } }
+        for x in 1..n - 1 { let y = n - 1 - x; if x > DEEP_TABLE || y > DEEP_TABLE { continue; } for a in &by[x] { for b in &by[y] {
+            let e = E::Seq(Box::new(a.clone()), Box::new(b.clone())); if f(i, &e) { return; } i += 1;
+            let e = E::Alt(Box::new(a.clone()), Box::new(b.clone())); if f(i, &e) { return; } i += 1; } } }
+        // size 9 under a rule: rule(r, <binary of size 8 splits>) - the shape `start = { (..) ~ tail }` of the detailed-error seeds
+        if n == 9 { for x in 1..7 { let y = 7 - x; for a in &by[x] { for b in &by[y] { for k in 0..2 {
+            let e = deep_unary(k, E::Seq(Box::new(a.clone()), Box::new(b.clone()))); if f(i, &e) { return; } i += 1; } } } } }
+    }
+}
+fn deep_tables() -> Vec<Vec<E>> { let mut by: Vec<Vec<E>> = vec![vec![]]; for n in 1..=DEEP_TABLE { let v = deep_of_size(n, &by); by.push(v); } by }
+
 fn nonprogress(e: &E) -> bool { // repeat over something that can succeed without consuming would not terminate
     match e { E::Rep(a) => nullable(a) || nonprogress(a), E::Seq(a, b) | E::Alt(a, b) => nonprogress(a) || nonprogress(b),
         E::Opt(a) | E::Pos(a) | E::Neg(a) | E::Rule(_, a) | E::RuleA(_, a) | E::RuleC(_, a) | E::Atomic(a) | E::Compound(a) | E::NonAtomic(a) | E::Push(a) | E::Restore(a) => nonprogress(a), _ => false }
@@ -199,6 +261,13 @@ fn main() {
         let j = &args[i + 1];
         let get = |key: &str| { let k = format!("\"{}\":\"", key); let a = j.find(&k).unwrap() + k.len(); let b = j[a..].find('"').unwrap() + a; j[a..b].to_string() };
         let idx: usize = get("program_index").parse().unwrap(); let input = get("input");
+        if j.contains("\"stage\":\"deep\"") {
+            let dby = deep_tables(); let mut prog = None;
+            deep_visit(&dby, &mut |i, e| { if i == idx { prog = Some(e.clone()); true } else { false } });
+            let prog = prog.expect("deep program index out of range");
+            match check(&prog, &input, "all") { Ok(()) => println!("program {:?} on {:?}: agrees with the direct reading on this tree", prog, input), Err(e) => { println!("FAILS: program {:?} on {:?}: {}", prog, input, e); std::process::exit(1) } }
+            return;
+        }
         let prog: E = if idx < all.len() { all[idx].clone() } else {
             let mut i = all.len(); let mut got = None;
             'o: { for a in &by[5] { for k in 0..NUN { if i == idx { got = Some(unary(k, a.clone())); break 'o; } i += 1; } }
@@ -246,5 +315,25 @@ fn main() {
         false
     });
     if found { return; }
-    println!("NO-WITNESS {} program/input pairs (all programs up to 5 nodes, size 6 up to index {} within {} s) agree with the direct reading", n, idx, budget);
+    let mut deep_note = String::new();
+    if mode == "C08" || mode == "C15" {
+        let dby = deep_tables();
+        let dbudget = std::env::var("VX_STATE_DEEP_S").ok().and_then(|x| x.parse().ok()).unwrap_or(240u64);
+        let t1 = std::time::Instant::now(); let mut dn = 0usize; let mut last = 0usize;
+        deep_visit(&dby, &mut |i, e| {
+            last = i;
+            if t1.elapsed().as_secs() > dbudget { return true; }
+            for input in DEEP_INPUTS {
+                dn += 1;
+                if let Err(w) = check(e, input, &mode) {
+                    println!("WITNESS {{\"program_index\":\"{}\",\"input\":\"{}\",\"stage\":\"deep\",\"program\":\"{}\",\"what\":\"{}\"}}", i, input, format!("{:?}", e).replace('"', "'"), w.replace('"', "'"));
+                    found = true; return true;
+                }
+            }
+            false
+        });
+        if found { return; }
+        deep_note = format!("; second stage: {} program/input pairs over {{a, b, the empty literal, ANY, two rules, !, ?, ~, |}} up to 9 nodes (index {} within {} s)", dn, last, dbudget);
+    }
+    println!("NO-WITNESS {} program/input pairs (all programs up to 5 nodes, size 6 up to index {} within {} s) agree with the direct reading{}", n, idx, budget, deep_note);
 }
